@@ -204,18 +204,55 @@ fn wcs(f: &[&str]) -> String {
     format!("{} | {}", if results.is_empty() { "-".to_owned() } else { results.join(",") }, if calls.is_empty() { "-".to_owned() } else { calls })
 }
 
+/// child mode `hwincon --wlk <out|err> <hex1> <hex2>`: the console stream over the REAL stdout /
+/// stderr (on this platform their `write_colored` is the ANSI fallback): write hex1, `.lock()`,
+/// write hex2 through the locked stream
+fn lock_child(args: &[String]) -> i32 {
+    let (which, h1, h2) = (&args[0], unhex(&args[1]), unhex(&args[2]));
+    let r: std::io::Result<()> = (|| {
+        if which == "out" {
+            let mut s = wincon::WinconStream::new(std::io::stdout());
+            s.write_all(&h1)?;
+            let mut l = s.lock();
+            l.write_all(&h2)?;
+            l.flush()
+        } else {
+            let mut s = wincon::WinconStream::new(std::io::stderr());
+            s.write_all(&h1)?;
+            let mut l = s.lock();
+            l.write_all(&h2)?;
+            l.flush()
+        }
+    })();
+    if r.is_ok() { 0 } else { 3 }
+}
+
+/// `wlk <out|err> <hex1> <hex2>`: run the child above and capture the pipe
+fn wlk(f: &[&str]) -> String {
+    let exe = std::env::current_exe().expect("current_exe");
+    let out = std::process::Command::new(exe).arg("--wlk").args(f).stdin(std::process::Stdio::null()).output().expect("spawn child");
+    if !out.status.success() {
+        return format!("CHILD-FAILED {:?}", out.status.code());
+    }
+    hex(if f[0] == "out" { &out.stdout } else { &out.stderr })
+}
+
 fn run_case(line: &str) -> String {
     let mut it = line.split(' ');
     let kind = it.next().unwrap_or("");
     let f: Vec<&str> = it.collect();
     match kind {
         "wcs" | "wcsx" => wcs(&f),
+        "wlk" => wlk(&f),
         _ => format!("UNKNOWN-KIND {kind}"),
     }
 }
 
 fn main() {
     let args: Vec<String> = std::env::args().collect();
+    if args.len() == 5 && args[1] == "--wlk" {
+        std::process::exit(lock_child(&args[2..]));
+    }
     if args.len() != 3 {
         eprintln!("usage: hwincon <case-file> <out-file>");
         std::process::exit(2);
